@@ -31,6 +31,39 @@ theorem countKey_ge (hs : Hs D) (encKey encDoc : Bytes) : ∀ (es : List (TxEntr
     · rw [if_neg hk] at h
       exact ih _ _ h
 
+/-- the entry loop fails with `ErrInvalidProof` only. -/
+theorem countKey_error (hs : Hs D) (encKey encDoc : Bytes) : ∀ (es : List (TxEntry D)) (n : Nat) (e : Err),
+    countKey hs encKey encDoc es n = .error e → e = .invalidProof := by
+  intro es
+  induction es with
+  | nil => intro n e h; simp [countKey] at h
+  | cons x es ih =>
+    intro n e h
+    unfold countKey at h
+    by_cases hk : x.key = encKey
+    · rw [if_pos hk] at h
+      by_cases hv : hs.H encDoc ≠ x.hValue
+      · rw [if_pos hv] at h
+        injection h with h
+        exact h.symm
+      · rw [if_neg hv] at h
+        exact ih _ _ h
+    · rw [if_neg hk] at h
+      exact ih _ _ h
+
+/-- an encoded document shorter than a slice offset: refused with `ErrInvalidProof`, whatever else the proof holds. -/
+theorem verifyDocument_outOfRange (hs : Hs D) (sigOk : Client.State D → Bool) (encKey : Bytes)
+    (known : Client.State D) (p : Proof D) :
+    verifyDocument hs sigOk encKey .outOfRange known p = some (.error .invalidProof) := by
+  unfold verifyDocument
+  split
+  · rename_i e he
+    rw [countKey_error hs encKey p.encDoc p.entries 0 e he]
+  · rename_i n hn
+    by_cases hn1 : n ≠ 1
+    · rw [if_pos hn1]
+    · rw [if_neg hn1]
+
 /-- A successful count that moved: some entry has the key and carries the hash of the encoded document. -/
 theorem countKey_found (hs : Hs D) (encKey encDoc : Bytes) : ∀ (es : List (TxEntry D)) (n m : Nat),
     countKey hs encKey encDoc es n = .ok m → n < m →
